@@ -143,6 +143,15 @@ CHECKS = {
                 note="the heap is not observable through the Story API: the TLA+ share is the rule over the logged counter; "
                      "a single capacity step of a buffer is tolerated, sustained growth is not",
                 technique="counting allocator in the harness + TLA+ rule over the logged counter (InkHeapTrace)"),
+    "C06": dict(level=FE, ref="5/C06",
+                text="A seeded mutation driver (line / character / token / byte mutations and splices of corpus sources and generated "
+                     "programs, token soup, deep nesting, non-ASCII before expression tokens) feeds the compiler; every outcome and "
+                     "every returned story is validated by TLC against spec InkPathAudit: outcome is a loadable story or an error "
+                     "whose line exists in the input (a panic, abort or hang matches no outcome); every divert, tunnel, function "
+                     "call, choice target, read-count and divert-target literal resolves exactly under InkPath!ResolveFrom over a "
+                     "tree built from the JSON by an independent parser; each input is compiled in two processes and compared.",
+                note="the input space is explored, not enumerated; four classes of input disagree on the unchanged tree (known findings)",
+                technique="mutation driver + TLA+ outcome rule and reference resolution (InkPathAudit/InkPath) over compiled output"),
 }
 
 NOT_YET = {}
